@@ -11,6 +11,7 @@ import (
 	"encoding/json"
 	"flag"
 	"fmt"
+	"go/types"
 	"os"
 	"os/exec"
 	"path/filepath"
@@ -89,6 +90,7 @@ func main() {
 	noSelf := flag.Bool("noselftest", false, "thorough without the mutant self-test")
 	dump := flag.Bool("dump", false, "print the registry as JSON (used by tools/gen_manifest.py)")
 	dumpFuncs := flag.Bool("dumpfuncs", false, "print the keys of all non-test module functions (regenerates checker/baseline_funcs.txt)")
+	dumpFields := flag.Bool("dumpfields", false, "print the struct fields of the module (regenerates checker/baseline_fields.txt)")
 	all := flag.Bool("all", false, "development aid: load once, evaluate every property, print the obligations that do not hold (no evidence written)")
 	replay := flag.String("replay", "", "replay file written for a violation: re-evaluates that rule on the current tree")
 	flag.Parse()
@@ -159,6 +161,33 @@ func main() {
 		fmt.Println(strings.Join(ks, "\n"))
 		return
 	}
+	if *dumpFields {
+		abs, _ := filepath.Abs(*repo)
+		p, err := Load(LoadConfig{Dir: abs})
+		if err != nil {
+			fmt.Fprintln(os.Stderr, err)
+			os.Exit(2)
+		}
+		var ls []string
+		for _, pkg := range p.Pkgs {
+			if strings.HasSuffix(pkg.Name, "_test") {
+				continue
+			}
+			sc := pkg.Types.Scope()
+			for _, n := range sc.Names() {
+				if tn, ok := sc.Lookup(n).(*types.TypeName); ok {
+					if st, ok := tn.Type().Underlying().(*types.Struct); ok {
+						for i := 0; i < st.NumFields(); i++ {
+							ls = append(ls, short(pkg.PkgPath)+"."+n+"."+st.Field(i).Name()+"\t"+short(types.TypeString(st.Field(i).Type(), nil)))
+						}
+					}
+				}
+			}
+		}
+		sort.Strings(ls)
+		fmt.Println(strings.Join(ls, "\n"))
+		return
+	}
 	if *all {
 		abs, _ := filepath.Abs(*repo)
 		os.Exit(runAll(abs, *verif))
@@ -205,6 +234,7 @@ func main() {
 		if name == "linux/amd64" {
 			notes = append(notes, c.Notes...)
 			notes = append(notes, p.RoleNotes...)
+			notes = append(notes, p.InlineNotes...)
 			for _, n := range p.RoleNotes {
 				fmt.Println("NOTE:", n)
 			}
